@@ -39,6 +39,12 @@ class TvmBitarray(bitarray):
             raise TvmBitarrayUnderflowException('bitstring underflow')
 
     def extend(self, x: Union[str, Iterable[int]]) -> None:
+        # count the bits that will be appended, not the length of what was given: blanks and underscores in a bit string
+        # are not bits, and an iterator or a generator has no len() at all
+        if isinstance(x, str):
+            x = bitarray(x)
+        elif not hasattr(x, '__len__'):
+            x = list(x)
         self.check_overflow(len(x))
         super().extend(x)
 
